@@ -3,3 +3,4 @@ pub mod pix;
 pub mod step;
 pub mod wind;
 pub mod curve;
+pub mod clip;
